@@ -505,9 +505,18 @@ impl Sim {
                     1 => bal.saturating_add(1),
                     _ => self.rng.range(0, bal.max(1)),
                 };
-                let use_paths = self.rng.chance(1, 5) && market != 2;
-                let (long_path, short_path) =
-                    if use_paths { (self.gen_path(sol, sol, 2), self.gen_path(usdc, usdc, 2)) } else { (vec![], vec![]) };
+                let use_paths = self.rng.chance(1, 3) && market != 2;
+                // asymmetric cases matter: one side swapped through other markets, the other side paid out of the
+                // withdrawal market itself (which market's recorded balance is debited for each side)
+                let (long_path, short_path) = if use_paths {
+                    match self.rng.below(3) {
+                        0 => (self.gen_path(sol, sol, 2), vec![]),
+                        1 => (vec![], self.gen_path(usdc, usdc, 2)),
+                        _ => (self.gen_path(sol, sol, 2), self.gen_path(usdc, usdc, 2)),
+                    }
+                } else {
+                    (vec![], vec![])
+                };
                 Op::CreateWithdrawal { user, market, amount, long_path, short_path }
             }
             5 => {
@@ -593,6 +602,18 @@ impl Sim {
                                 };
                                 if self.rng.chance(1, 3) {
                                     req.initial_collateral_delta_amount = self.rng.range(0, (p.state.collateral_amount as u64).max(1));
+                                }
+                                // how the pnl-token and collateral-token outputs are merged before the
+                                // receive-token swap: with CollateralToPnlToken the output token is the pnl token,
+                                // which the (creation-validated) primary path need not start from
+                                {
+                                    use gmsol_model::action::decrease_position::DecreasePositionSwapType as S;
+                                    req.decrease_swap = match self.rng.below(6) {
+                                        0 | 1 => Some(S::CollateralToPnlToken),
+                                        2 => Some(S::PnlTokenToCollateralToken),
+                                        3 => Some(S::NoSwap),
+                                        _ => None,
+                                    };
                                 }
                             }
                         } else if self.rng.chance(1, 8) {
